@@ -10,6 +10,7 @@ REGISTRY = {
     'split':    lambda repo, sd, canary=False: smallslices.build_split(repo, sd, canary=canary),
     'rep':      lambda repo, sd, canary=False: smallslices.build_rep(repo, sd, canary=canary),
     'order':    lambda repo, sd, canary=False: smallslices.build_order(repo, sd, canary=canary),
+    'splice':   lambda repo, sd, canary=False: smallslices.build_splice(repo, sd, canary=canary),
     'gates':    lambda repo, sd, canary=False: smallslices.build_gates(repo, sd, canary=canary),
     'tables':   lambda repo, sd, canary=False: tables.build(repo, sd, canary=canary),
     'dfa':      lambda repo, sd, canary=False: dfa.build(repo, sd, kf=False, canary=canary),
@@ -18,6 +19,7 @@ REGISTRY = {
     'regexp':   lambda repo, sd, canary=False: regexp.build(repo, sd, canary=canary),
     'render':   lambda repo, sd, canary=False: render.build(repo, sd, canary=canary),
     'format':   lambda repo, sd, canary=False: fmtunit.build(repo, sd, canary=canary),
+    'matrix':   lambda repo, sd, canary=False: elim.build_matrix(repo, sd, canary=canary),
     'trie':     lambda repo, sd, canary=False: dfa.build_trie(repo, sd, canary=canary),
     'wasm':     lambda repo, sd, canary=False: bindings.build_wasm(repo, sd, canary=canary),
     'python':   lambda repo, sd, canary=False: bindings.build_python(repo, sd, canary=canary),
@@ -25,22 +27,22 @@ REGISTRY = {
 }
 # units whose obligations carry a property (an obligation counts for a property only if its clause is tagged with it)
 PROP_UNITS = {
-    'C01': ['expr', 'elim', 'regexp', 'caseconv', 'split', 'rep', 'dfa', 'dfa_kf', 'trie', 'render', 'format'],
-    'C02': ['expr', 'elim', 'regexp', 'dfa', 'gates', 'render', 'format'],
+    'C01': ['expr', 'elim', 'matrix', 'regexp', 'caseconv', 'split', 'rep', 'dfa', 'dfa_kf', 'trie', 'render', 'format'],
+    'C02': ['expr', 'elim', 'matrix', 'regexp', 'dfa', 'gates', 'render', 'format'],
     'C03': ['classify', 'gates', 'trie'],
     'C04': ['caseconv', 'regexp', 'render'],
-    'C05': ['trie', 'render', 'rep'],
+    'C05': ['trie', 'render', 'rep', 'splice'],
     'C06': ['render', 'format'],
-    'C07': ['expr', 'elim', 'regexp', 'builder', 'split', 'caseconv', 'rep', 'gates', 'render', 'format', 'order', 'dfa', 'trie', 'cli', 'escape', 'classify'],
+    'C07': ['expr', 'elim', 'matrix', 'regexp', 'builder', 'split', 'caseconv', 'rep', 'splice', 'gates', 'render', 'format', 'order', 'dfa', 'trie', 'cli', 'escape', 'classify'],
     'C08': ['render', 'expr', 'regexp', 'format'],
     'C09': ['tables', 'classify'],
     'C10': ['builder', 'regexp', 'gates', 'order'],
     'C11': ['escape', 'builder', 'format'],
     'C12': ['cli', 'gates'],
-    'C13': ['rep', 'builder', 'render', 'trie'],
+    'C13': ['rep', 'splice', 'builder', 'render', 'trie'],
     'C14': ['python'],
     'C15': ['render'],
-    'C16': ['expr', 'elim', 'regexp', 'dfa', 'dfa_kf', 'trie', 'render', 'format'],
+    'C16': ['expr', 'elim', 'matrix', 'regexp', 'dfa', 'dfa_kf', 'trie', 'render', 'format'],
     'C17': ['wasm'],
 }
 # dfa_kf holds exactly the known-finding clause (its canary would be redundant with dfa's); tables has no function with a context
